@@ -495,7 +495,8 @@ theorem runLoop_reaches (ext : ExtOps) (force : Bool) (count : Option Nat) :
     that only performed the definitions and mutations the failed evaluation completed (`onError sf`: the heap
     at the failing instruction, idle registers) ends the same way: if the twin's evaluation reaches HALT so does
     the other and the datum in `acc` is equal; if it fails, the other fails with the same error, in
-    `Sim`-related states. -/
+    `Sim`-related states whose stack-trace frames (`traceFrames`: the code objects of the return addresses below
+    `sp`, innermost first) are related one by one to those of the collection-free reference run. -/
 theorem failed_eval_equivalent_later (ext : ExtOps) (force : Bool) (el : ExtLaws ext) (eg : ExtGood ext)
     (comp : CHeap → VCell → Outcome (CHeap × VCell)) (cl : CompLaws comp) (cg : CompGood comp)
     (count : Option Nat) (fuel : Nat) (s : St CHeap) (f : Fault) (s1 : St CHeap)
@@ -514,7 +515,8 @@ theorem failed_eval_equivalent_later (ext : ExtOps) (force : Bool) (el : ExtLaws
               ∀ fl, resultObs fl s' = resultObs fl t'') ∧
           (∀ e t', pureN (machine ext force) k t2 = .error e t' →
             ∃ s' t'', run (machine ext force) k s2 = .error e s' ∧ run (machine ext force) k t2 = .error e t'' ∧
-              (∃ ψ, Sim ψ s' t') ∧ (∃ ψ, Sim ψ t'' t')) := by
+              (∃ ψ, Sim ψ s' t' ∧ All2 (AddrRel ψ) (traceFrames s') (traceFrames t')) ∧
+              (∃ ψ, Sim ψ t'' t' ∧ All2 (AddrRel ψ) (traceFrames t'') (traceFrames t'))) := by
   obtain ⟨q1, sf, hrun, rfl, _⟩ := failed_eval_resets_cgc ext force count fuel s f s1 hfail
   have hreach : Reaches (machine ext force) s sf := (runLoop_reaches ext force count fuel 0 s).1 f sf hrun
   have gsf : GoodI sf := goodI_reaches force el eg g sb sdl sf hreach
@@ -545,9 +547,9 @@ theorem failed_eval_equivalent_later (ext : ExtOps) (force : Bool) (el : ExtLaws
     refine ⟨s', t'', h1, h2, fun fl => ?_⟩
     rw [resultObs_sim r1 ss1.good.size st1.good.size fl, resultObs_sim r2 ss2.good.size st2.good.size fl]
   · intro e t' hk
-    obtain ⟨s', h1, ⟨r1, _, _⟩⟩ := a.2 e t' hk
-    obtain ⟨t'', h2, ⟨r2, _, _⟩⟩ := b.2 e t' hk
-    exact ⟨s', t'', h1, h2, r1, r2⟩
+    obtain ⟨s', h1, ⟨⟨φ1, r1⟩, _, _⟩⟩ := a.2 e t' hk
+    obtain ⟨t'', h2, ⟨⟨φ2, r2⟩, _, _⟩⟩ := b.2 e t' hk
+    exact ⟨s', t'', h1, h2, ⟨φ1, r1, traceFrames_rel r1⟩, ⟨φ2, r2, traceFrames_rel r2⟩⟩
 
 /-! ### non-vacuity -/
 
@@ -557,31 +559,41 @@ example : CompLaws (fun _ _ => .err .invalidSyntax) ∧ CompGood (fun _ _ => .er
 
 open Marwood.Lemmas.Good.Demo in
 /-- a failing evaluation of the concrete machine from a good state: running on past the `HALT` of the
-    one-instruction program (`ip` beyond the code) fails with `InvalidBytecode`; T07.1 and T07.4 apply -/
-example : ∃ s1, runEval (concreteOps failingExt) (cgc false) none 5 (sHalt 1) = .failed (.err .invalidBytecode) s1 ∧
-    Quiescent s1 ∧ ∃ ψ, Sim ψ s1 (onError (sHalt 1)) := by
-  have hrun : runEval (concreteOps failingExt) (cgc false) none 5 (sHalt 1) =
-      .failed (.err .invalidBytecode) (cgc false (onError (sHalt 1))) := by
-    unfold runEval
-    have : runLoop ⟨vmStep (concreteOps failingExt), cgc false⟩ none 5 0 (sHalt 1) =
-        .error (.err .invalidBytecode) (sHalt 1) := by
-      simp only [runLoop]
-      have h1 : vmStep (concreteOps failingExt) (sHalt 1) = .fail (.err .invalidBytecode) (sHalt 1) :=
-        sHalt_step1 failingExt false
-      simp [h1]
+    one-instruction program (`ip` beyond the code) fails with `InvalidBytecode` -/
+theorem demo_failed_eval : runEval (concreteOps failingExt) (cgc false) none 5 (sHalt 1) =
+    .failed (.err .invalidBytecode) (cgc false (onError (sHalt 1))) := by
+  unfold runEval
+  have : runLoop ⟨vmStep (concreteOps failingExt), cgc false⟩ none 5 0 (sHalt 1) =
+      .error (.err .invalidBytecode) (sHalt 1) := by
+    simp only [runLoop]
+    have h1 : vmStep (concreteOps failingExt) (sHalt 1) = .fail (.err .invalidBytecode) (sHalt 1) :=
+      sHalt_step1 failingExt false
+    simp [h1]
+  rw [this]
+
+open Marwood.Lemmas.Good.Demo in
+theorem demo_failed_small : Small (cgc false (onError (sHalt 1))).heap := by
+  have e : cgc false (onError (sHalt 1)) = onError (sHalt 1) := by
+    unfold cgc
+    have : Heap.Heap.runGc true false (toHeap (onError (sHalt 1)).heap) (rootsOf (onError (sHalt 1))) =
+        .ok (.skipped eHalt) := by
+      show Heap.Heap.runGc true false (toHeap hHalt) _ = _
+      rw [toHeap_hHalt]; rfl
     rw [this]
-  refine ⟨_, hrun, (failed_eval_resets_cgc _ _ _ _ _ _ _ hrun).1, ?_⟩
-  have gsf : GoodI (sHalt 1) := sHalt_goodI 1
-  have sm : Small (cgc false (onError (sHalt 1))).heap := by
-    have e : cgc false (onError (sHalt 1)) = onError (sHalt 1) := by
-      unfold cgc
-      have : Heap.Heap.runGc true false (toHeap (onError (sHalt 1)).heap) (rootsOf (onError (sHalt 1))) =
-          .ok (.skipped eHalt) := by
-        show Heap.Heap.runGc true false (toHeap hHalt) _ = _
-        rw [toHeap_hHalt]; rfl
-      rw [this]
-    rw [e]; exact sHalt_small 1
-  exact failed_twin_sim false gsf sm
+  rw [e]; exact sHalt_small 1
+
+open Marwood.Lemmas.Good.Demo in
+/-- T07.1 and T07.4 apply to it, with every hypothesis discharged -/
+example : ∃ sf, runLoop (machine failingExt false) none 5 0 (sHalt 1) = .error (.err .invalidBytecode) sf ∧
+    cgc false (onError (sHalt 1)) = cgc false (onError sf) ∧ (∃ ψ, Sim ψ (cgc false (onError (sHalt 1))) (onError sf)) := by
+  obtain ⟨sf, h1, h2, h3, _⟩ := failed_eval_equivalent_later failingExt false failingExt_laws failingExt_good
+    (fun _ _ => .err .invalidSyntax) ⟨fun _ _ _ _ _ _ _ _ _ _ => .err⟩ ⟨fun _ _ _ _ _ _ _ h => (by cases h)⟩
+    none 5 (sHalt 1) _ _ demo_failed_eval (sHalt_goodI 1) (sHalt_sizeBounded1 _) (sHalt_discAlong1 _) demo_failed_small
+  exact ⟨sf, h1, h2, h3⟩
+
+open Marwood.Lemmas.Good.Demo in
+example : Quiescent (cgc false (onError (sHalt 1))) :=
+  (failed_eval_resets_cgc _ _ _ _ _ _ _ demo_failed_eval).1
 
 end ConcreteSim
 
